@@ -654,17 +654,25 @@ func brief(v any) string {
 // presence of empty messages under empty_behavior NULL/OMIT, and the structural
 // indistinguishability of a nil and an empty flattened child.
 func Normalize(m proto.Message) proto.Message {
-	// proto.Clone drops negative-zero floats in implicit-presence fields (its merge fast path
-	// tests v != 0), so copy through the wire format, which keeps them.
+	c := Copy(m)
+	normalize(c.ProtoReflect(), 0)
+	return c
+}
+
+// Copy deep-copies m. proto.Clone drops negative-zero floats in implicit-presence fields (its
+// merge fast path tests v != 0), so the copy goes through the wire format, which keeps them.
+func Copy(m proto.Message) proto.Message {
+	if m == nil {
+		return nil
+	}
 	c := m.ProtoReflect().New().Interface()
 	b, err := proto.MarshalOptions{AllowPartial: true}.Marshal(m)
 	if err == nil {
 		err = proto.UnmarshalOptions{AllowPartial: true}.Unmarshal(b, c)
 	}
 	if err != nil {
-		c = proto.Clone(m)
+		return proto.Clone(m)
 	}
-	normalize(c.ProtoReflect(), 0)
 	return c
 }
 
